@@ -1,4 +1,5 @@
-\* t_active: see checks/ringlookup_common.py (UNIVERSES) for what this universe is for
+\* t_active: successor/boundary: <=4 instances x <=2 tokens on 8 positions, everything ACTIVE
+\* (generated from UNIVERSES in checks/ringlookup_common.py: python3 checks/ringlookup_common.py --write-cfgs)
 CONSTANTS
   NK = 9
   Gaps = {4}
@@ -11,10 +12,13 @@ CONSTANTS
   RFMax = 5
   Canon = 2
   WithRemove = FALSE
+  Excl = {}
   EmitOn = TRUE
+  EmitSets = FALSE
+  XMax = 0
 INIT Init
 NEXT Next
 VIEW View
-INVARIANTS TypeOK SizeOK ZoneOK ClockwiseFirst SlackExact WalkDefsAgree QuorumIntersection Emit
+INVARIANTS TypeOK SizeOK ZoneOK ClockwiseFirst SlackExact WalkDefsAgree QuorumIntersection ExpandedOK Emit
 PROPERTIES MinimalDisruption
 CHECK_DEADLOCK FALSE
